@@ -5,6 +5,7 @@ import hashlib
 import importlib
 import json
 import multiprocessing
+import signal
 import os
 import subprocess
 import sys
@@ -38,6 +39,17 @@ def run_seed(base, i):
 # worker side
 # ---------------------------------------------------------------------------------------------
 
+RUN_WALL_LIMIT = 60
+
+
+class RunHung(BaseException):
+    pass
+
+
+def _on_alarm(signum, frame):
+    raise RunHung()
+
+
 def _summarise(res):
     return res.to_dict()
 
@@ -52,6 +64,7 @@ def _work(job):
     """Run a chunk of seeds of one family; return an aggregate (keeps IPC small)."""
     fam, tier, seeds, prop, wall_cap = job
     faulthandler.dump_traceback_later(wall_cap, exit=True)
+    signal.signal(signal.SIGALRM, _on_alarm)
     mod = family(fam)
     agg = {
         "family": fam, "runs": 0, "events": 0, "sim_time": 0.0, "faults": {}, "probes": {}, "orders": [],
@@ -68,7 +81,16 @@ def _work(job):
             continue
         for idx, plan in enumerate(plans):
             try:
-                res = mod.run_plan(plan)
+                signal.alarm(RUN_WALL_LIMIT)
+                try:
+                    res = mod.run_plan(plan)
+                finally:
+                    signal.alarm(0)
+            except RunHung:
+                # event caps do not bound a loop that never returns to the simulator (inside afkak or an oracle)
+                agg["harness"].append({"seed": seed, "idx": idx, "error": "HANG: run exceeded %d s of wall clock: %s" % (
+                    RUN_WALL_LIMIT, traceback.format_exc()[-900:])})
+                continue
             except Exception:
                 agg["harness"].append({"seed": seed, "idx": idx, "error": traceback.format_exc()[-1200:]})
                 continue
@@ -224,9 +246,22 @@ def _ddmin_list(plan, key, prop, sig, budget):
     return out
 
 
-def shrink(plan, prop, sig, budget=200):
+class _Budget(list):
+    """[runs left]; also exhausted once the wall-clock allowance is used up."""
+
+    def __init__(self, runs, seconds):
+        list.__init__(self, [runs])
+        self.deadline = time.time() + seconds
+
+    def __getitem__(self, i):
+        if time.time() > self.deadline:
+            return 0
+        return list.__getitem__(self, i)
+
+
+def shrink(plan, prop, sig, budget=200, seconds=90):
     mod = family(plan["family"])
-    b = [budget]
+    b = _Budget(budget, seconds)
     if not _same(plan, prop, sig):
         return plan, False
     for key in getattr(mod, "SHRINK_LISTS", ("faults", "ops")):
